@@ -242,6 +242,8 @@ def rand_spec(rng, **force):
             L["k_elites"] = int(rng.integers(1, 3))
             L["mutation_std"] = 0.15 * scale
             L["p_mutation"] = float(rng.choice([1.0, 1.0, 0.6]))
+            if "p_mutation" in force:
+                L["p_mutation"] = float(force["p_mutation"])
             if k == "mwea":
                 L["pop_size"] = max(L["pop_size"], 10)
                 # committee sizes that divide the population size and ones that do not
@@ -330,12 +332,16 @@ def rand_spec(rng, **force):
             spec[k] = force[k]
     if gsc["kind"] == "SingularProblemPrecisionReached":
         spec["shared_problem"] = True
+    # one run in six is preceded by another tree driven by the same sprout mechanism object (derived from the
+    # seed, not drawn: the random stream of the generator stays what it was)
+    spec["prior_tree"] = bool(force.get("prior_tree", spec["seed"] % 6 == 0))
     return spec
 
 
 # ---------------------------------------------------------------- building the real objects
-def build(spec, run, plain=None):
-    """plain: None = recording objective tied to `run`; "callable" / "lambda" = untraced, picklable objectives"""
+def build(spec, run, plain=None, reuse_sm=None):
+    """plain: None = recording objective tied to `run`; "callable" / "lambda" = untraced, picklable objectives;
+    reuse_sm: a sprout mechanism object that already served another tree (a user reusing a configured mechanism)"""
     import pyhms
     from pyhms import config as C
     from pyhms.core import problem as P
@@ -483,6 +489,8 @@ def build(spec, run, plain=None):
         for f in s["tree_filters"]:
             tfs.append(F.SkipSameSprout() if f == "skipsame" else F.LevelLimit(s["level_limit"]))
         sm = SproutMechanism(gen, dfs, tfs)
+    if reuse_sm is not None:
+        sm = reuse_sm
 
     g = spec["gsc"]
     gk = g["kind"]
@@ -693,6 +701,8 @@ class Run:
         self.on_gsc = on_gsc
         o = build(self.spec, self)
         self.objs = o
+        if self.spec.get("prior_tree"):
+            prior_tree(self.spec, o["sm"])
         for lvl, lc in enumerate(o["levels"]):
             lc.lsc = self._wrap_lsc(lc.lsc, lvl)
         cap = self.spec["max_steps"]
@@ -795,6 +805,32 @@ class Run:
         finally:
             T.init_from_config = orig_init
         return self
+
+
+def prior_tree(spec, sm, steps=5):
+    """a user reusing one configured sprout mechanism object for several trees of a process: before the tree
+    under observation is built, another tree of the same configuration (other seed, objects of its own) is
+    driven by the very mechanism object.  Nothing of that earlier tree may show in the later one."""
+    import pyhms.tree as T
+    from pyhms.config import TreeConfig
+
+    from .common import is_env_crash, run_limit
+
+    spec2 = copy.deepcopy(spec)
+    spec2["seed"] = int(spec["seed"]) + 7919
+    spec2.pop("prior_tree", None)
+    try:
+        with run_limit():
+            o2 = build(spec2, None, plain="callable", reuse_sm=sm)
+            opts = {"random_seed": spec2["seed"], "hibernation": spec2["hibernation"]}
+            t = T.DemeTree(TreeConfig(o2["levels"], o2["gsc"], sm, options=opts, config_class_to_deme_class=o2["custom"]))
+            k = 0
+            while not t._gsc(t) and k < steps:
+                t.run_step()
+                k += 1
+    except Exception as e:  # noqa: BLE001 (the earlier tree is only there to leave traces in the mechanism object)
+        if not is_env_crash(e):
+            pass
 
 
 def norm_ord_of(spec):
